@@ -51,6 +51,7 @@ func c12(c *core.Ctx) string {
 	c.Rule("R-C05-1", "the filter chain consulted on a cache hit is the plain conjunction of its filters' verdicts (no verdict of its own, e.g. for unparsable addresses): cached and uncached paths agree (shared with R-C05-1)")
 	c05Conj(c)
 	c.Alias("R-C05-1", "")
+	ipChainNoAliasing(c, "R-C12-7")
 	return "Information-flow audit of the route cache: the cached decision must be a function of the key (host, method, path) and of facts re-validated on a hit. Decided path-sensitively over all paths of muxInstance.search (disjunctive states correlate the mismatch flags with the dependence events), plus key construction and cache freshness. Not decided: ARC eviction, correctness of the uncached search (C01/C05)."
 }
 
